@@ -137,10 +137,35 @@ func c10KnownAnswer(t c10Xf, in any) (any, bool) {
 		return c10KnownConvert(t, in)
 	case "math":
 		i, ok := in.(int64)
-		if !ok || t.Math == nil || t.Math.Multiply == nil || (t.Math.Type != "" && t.Math.Type != "Multiply") {
+		if !ok || t.Math == nil {
 			return nil, false
 		}
-		return i * *t.Math.Multiply, true
+		switch t.Math.Type {
+		case "ClampMin":
+			// "ClampMin makes sure that the value is not smaller than the given value" - on
+			// integers, compared as integers: the input if it is within the bound, else the bound
+			if t.Math.ClampMin == nil {
+				return nil, false
+			}
+			if i < *t.Math.ClampMin {
+				return *t.Math.ClampMin, true
+			}
+			return i, true
+		case "ClampMax":
+			if t.Math.ClampMax == nil {
+				return nil, false
+			}
+			if i > *t.Math.ClampMax {
+				return *t.Math.ClampMax, true
+			}
+			return i, true
+		case "", "Multiply":
+			if t.Math.Multiply == nil {
+				return nil, false
+			}
+			return i * *t.Math.Multiply, true
+		}
+		return nil, false
 	}
 	return nil, false
 }
